@@ -12,6 +12,7 @@ import re
 
 from ..core import AnalysisError
 from .. import cfront as C
+from ..poly import Poly, Rat
 from ..pyfront import dotted, call_name, kwarg, params, src, walk_no_nested, const
 
 EXPLANATION = (
@@ -46,6 +47,7 @@ def check(ctx):
         r4(ctx, cf)
         ctx.rule("C10-R5", "voxel grid invariants: a voxel size is recomputed only from a positive extent; periodic y / z ranges are clamped to one period as the last adjustment before the loop")
         r5_voxel_invariants(ctx, cf)
+        r5_face_tests(ctx, cf)
     finally:
         C.MEMBER_OBJECTS = False
 
@@ -66,9 +68,9 @@ def r1(ctx, cf):
     fn = cf.function(NB, "_compute_neighbors")
     ctx.analysed_files.add(NB)
     ctx.analysed_functions.add(NB + ":_compute_neighbors")
-    loops = [n for n in C.walk(fn) if n["kind"] == "ForStmt"]
+    loops = [n for n in C.walk(fn) if n["kind"] == "ForStmt" and _iter_loop(n)[1] in ("haystack_indices", "query_indices")]
     if len(loops) != 2:
-        raise AnalysisError("_compute_neighbors: expected two loops, found %d" % len(loops))
+        raise AnalysisError("_compute_neighbors: expected one loop over haystack_indices with one over query_indices inside, found %d iterator loops" % len(loops))
     outer, inner = loops
     ov, oc, ook, ot = _iter_loop(outer)
     iv, ic, iok, it = _iter_loop(inner)
@@ -113,9 +115,14 @@ def r1(ctx, cf):
     want = ["(box_vec3-=(box_vec2*roundf((box_vec3[1]/box_vec2[1]))))", "(box_vec3-=(box_vec1*roundf((box_vec3[0]/box_vec1[0]))))", "(box_vec2-=(box_vec1*roundf((box_vec2[0]/box_vec1[0]))))"]
     ctx.decide(red == want, "C10-R1", C.line(fn), NB, "_compute_neighbors", "box reduced c-=b, c-=a, b-=a", "", "box reduction is %s" % red)
     tri = decl.get("triclinic", "")
-    ok = tri.startswith("(periodic&&") and all(("box_matrix[%d]!=0" % k) in tri.replace("(", "").replace(")", "") for k in (1, 2, 3, 5, 6, 7))
-    ctx.decide(ok and decl.get("periodic") == "(box_matrix!=NULL)", "C10-R1", C.line(fn), NB, "_compute_neighbors", "periodic iff a box is given; triclinic iff any off-diagonal entry is non-zero", "",
-               "periodic/triclinic flags are %s / %s" % (decl.get("periodic"), tri))
+    flat = tri.replace("(", "").replace(")", "")
+    if flat.startswith("periodic&&"):
+        idx = set(int(k) for k in re.findall(r"box_matrix\[(\d)\]!=0", flat))
+        how = tri
+    else:
+        idx, how = _triclinic_by_paths(cf, fn, outer)
+    ctx.decide(idx == {1, 2, 3, 5, 6, 7} and decl.get("periodic") == "(box_matrix!=NULL)", "C10-R1", C.line(fn), NB, "_compute_neighbors", "periodic iff a box is given; triclinic iff any off-diagonal entry is non-zero", "",
+               "the triclinic flag looks at box entries %s (off-diagonal entries are 1, 2, 3, 5, 6, 7): a cell skewed only in an entry that is not examined is wrapped as rectangular; periodic = %s; %s" % (sorted(idx) if idx is not None else None, decl.get("periodic"), how[:160]))
     rv = [v for v in C.walk(fn) if v["kind"] == "VarDecl" and v.get("name") == "recip_box_size"]
     asg = [_n(C.text(n)) for n in C.walk(fn) if n["kind"] == "BinaryOperator" and n.get("opcode") == "=" and _n(C.text(C.kids(n)[0])).startswith("recip_box_size[")]
     ctx.decide(asg == ["(recip_box_size[0]=(1.0/box_matrix[0]))", "(recip_box_size[1]=(1.0/box_matrix[4]))", "(recip_box_size[2]=(1.0/box_matrix[8]))"], "C10-R1", C.line(fn), NB, "_compute_neighbors",
@@ -300,3 +307,62 @@ def r5_voxel_invariants(ctx, cf):
         ctx.decide(ok, "C10-R5", C.line(clamp[0]) if clamp else C.line(lp), NL, "Voxels::getNeighbors", "periodic %s range clamped to one period (end <= start + n - 1) after all other adjustments" % ax, "",
                    "the clamp `end%s = min(end%s, start%s+n%s-1)` is %s: the loop can span more than n%s voxels and one voxel column is scanned twice (duplicate neighbours)"
                    % (ax, ax, ax, ax, "missing" if not clamp else "followed by another write to start%s/end%s" % (ax, ax), ax))
+
+
+def _triclinic_by_paths(cf, fn, outer):
+    """When the triclinic flag is not one expression: evaluate the statements before the atom loops on every path and return the set of
+    box entries k such that `box_matrix[k] != 0` alone makes the flag true."""
+    from ..symval import SymExec, State, Ptr, Unsupported
+    pre = []
+    for st in C.kids(C.body_of(fn)):
+        if st is outer or any(x is outer for x in C.walk(st)):
+            break
+        pre.append(st)
+    ex = SymExec(cf, NB, max_unroll=16)
+    st0 = State()
+    for p_ in C.fparams(fn):
+        nm = p_.get("name")
+        st0.env[nm] = Ptr(nm, 0) if "*" in C.qtype(p_) else st0.sym(nm)
+    try:
+        outs = [st0]
+        for stmt in pre:
+            nxt = []
+            for o in outs:
+                nxt.extend(ex.run([stmt], o))
+            outs = nxt
+            for o in outs:
+                v = o.env.get("periodic")
+                if v is not None and hasattr(v, "const_value") and v.const_value() is None:
+                    o.env["periodic"] = Rat(Poly.const(1))      # the flag matters in the periodic case: a box is given
+    except Unsupported as e:
+        return None, "not evaluable: %s" % e
+    idx = set()
+    for o in outs:
+        true_conds = [str(c) for c, p in o.cvals if p and "box_matrix[" in str(c)]
+        v = o.env.get("triclinic")
+        val = v.const_value() if hasattr(v, "const_value") else None
+        nz = set(int(k) for c in true_conds for k in re.findall(r"box_matrix\[(\d)\]", c))
+        if val is not None and val != 0 and len(nz) == 1:
+            idx |= nz
+    return idx, "flag computed on %d paths" % len(outs)
+
+
+def r5_face_tests(ctx, cf):
+    """needPeriodic decides whether the minimum-image wrap is applied to a candidate at all.  It must be true whenever the centre atom is
+    within the cutoff of a cell face: for y and z each, `pos[k] < maxDistance` and `pos[k] > periodicBoxSize[k] - maxDistance` with the
+    *same* k on both sides, and for x the already computed search range leaving [0, a_x]."""
+    gn = cf.function(NL, "getNeighbors")
+    decl = [v for v in C.walk(gn) if v["kind"] == "VarDecl" and v.get("name") == "needPeriodic" and C.kids(v)]
+    if not decl:
+        raise AnalysisError("getNeighbors: declaration of needPeriodic not found")
+    init = C.strip(C.kids(decl[0])[-1])
+    parts = C._split_and(init)
+    disj = []
+    for p_ in parts[1:]:
+        disj += C._split_or(p_)
+    flat = sorted(re.sub(r"[\s()]", "", C.text(d)).replace("this.", "") for d in disj)
+    want = sorted(["centerAtomPos[%d]<maxDistance" % k for k in (1, 2)] + ["centerAtomPos[%d]>periodicBoxSize[%d]-maxDistance" % (k, k) for k in (1, 2)] + ["minx<0.0", "maxx>periodicBoxVectors[0][0]"])
+    lead = re.sub(r"[\s()]", "", C.text(parts[0])).replace("this.", "") if parts else ""
+    ctx.decide(lead == "usePeriodic" and flat == want, "C10-R5", C.line(decl[0]), NL, "Voxels::getNeighbors",
+               "needPeriodic = usePeriodic and (within maxDistance of a y or z face, same axis on both sides of each test, or the x range leaves the cell)", "",
+               "the face tests are %s (expected %s): an atom near the face whose test is missing or uses another axis's box length is searched without periodic images" % (flat, want))
